@@ -73,6 +73,10 @@ type EventHasher struct {
 var eventDigests = map[string]hashing.Digest{}
 
 func (h *EventHasher) Do(data ...[]byte) hashing.Digest {
+	if len(data) == 1 && len(data[0]) == 0 {
+		// the empty event: a fixed prefix of its own
+		data = [][]byte{{0xee, 0xee}}
+	}
 	if len(data) == 1 && len(data[0]) >= 1 && len(data[0]) <= 4 {
 		k := string(data[0])
 		if d, ok := eventDigests[k]; ok {
